@@ -4,6 +4,7 @@ import (
 	"encoding/json"
 	"errors"
 	"fmt"
+	"github.com/KevoDB/kevo/pkg/verifhook"
 	"math"
 	"os"
 	"path/filepath"
@@ -235,10 +236,12 @@ func (c *Config) SaveManifest(dbPath string) error {
 		return fmt.Errorf("failed to write manifest: %w", err)
 	}
 
+	verifhook.At("manifest.tmpWritten")
 	if err := os.Rename(tempPath, manifestPath); err != nil {
 		return fmt.Errorf("failed to rename manifest: %w", err)
 	}
 
+	verifhook.At("manifest.renamed")
 	return nil
 }
 
